@@ -86,7 +86,8 @@ namespace rkcommon {
   std::string FileName::ext() const
   {
     size_t pos = filename.find_last_of('.');
-    if (pos == std::string::npos)
+    size_t sep = filename.find_last_of(path_sep);
+    if (pos == std::string::npos || (sep != std::string::npos && pos < sep))
       return "";
     return filename.substr(pos + 1);
   }
@@ -95,7 +96,8 @@ namespace rkcommon {
   FileName FileName::dropExt() const
   {
     size_t pos = filename.find_last_of('.');
-    if (pos == std::string::npos)
+    size_t sep = filename.find_last_of(path_sep);
+    if (pos == std::string::npos || (sep != std::string::npos && pos < sep))
       return filename;
     return filename.substr(0, pos);
   }
